@@ -1,7 +1,7 @@
 (* C09 - setup and trim produce well-formed, mutually consistent keys.  Statements only. *)
 From Coq Require Import List Arith NArith.
 From PC Require Import Base.Field Base.Result Base.Poly Schemes.KZG10 Schemes.Marlin
-     Proofs.MarlinComplete Proofs.MarlinBounds Proofs.Refusals Proofs.SetupFacts.
+     Proofs.MarlinComplete Proofs.MarlinBounds Proofs.Refusals Proofs.SetupFacts Schemes.PST13 Proofs.PST13Facts.
 Import ListNotations.
 Open Scope F_scope.
 
@@ -75,3 +75,25 @@ Theorem C09_prepared_tables_are_doublings :
   forall (FO : FieldOps) (FL : FieldLaws FO) x n i, (i < n)%nat -> nth i (doublings x n) 0 = fpow (1 + 1) i * x.
 Proof. exact @doublings_spec. Qed.
 Print Assumptions C09_prepared_tables_are_doublings.
+
+(* the multivariate parameters: every published element is g scaled by its own monomial at the one
+   trapdoor point (any number of variables and degree), hence the pairing identities between
+   neighbouring monomials; trimming keeps exactly the monomials up to the supported degree *)
+Theorem C09_pst13_setup_values :
+  forall (FO : FieldOps) (FL : FieldLaws FO) fuel nv D betas l, (1 <= nv)%nat ->
+    setup_pairs fuel nv D betas = Ok l ->
+    Forall (fun ve => fst ve = eval_exps betas (snd ve) /\ length (snd ve) = nv) l.
+Proof. exact @setup_pairs_values. Qed.
+Print Assumptions C09_pst13_setup_values.
+
+Theorem C09_pst13_pairing_consistent :
+  forall (FO : FieldOps) (FL : FieldLaws FO) g h betas m i, (i < length m)%nat ->
+    (g * eval_exps betas (incr_at i m)) * h = (g * eval_exps betas m) * (xi betas i * h).
+Proof. exact @key_pairing_consistency. Qed.
+Print Assumptions C09_pst13_pairing_consistent.
+
+Theorem C09_pst13_trim :
+  forall supported keys v,
+    In v (trim_keys supported keys) <-> (In v keys /\ (fold_right Nat.add 0 v <= supported)%nat).
+Proof. exact trim_keys_spec. Qed.
+Print Assumptions C09_pst13_trim.
